@@ -107,6 +107,8 @@ type Path struct {
 	fnsHit    map[*ssa.Function]bool
 	nQueries  int
 	mapOrderRev bool
+	relevant     map[*Var]bool
+	pending      map[*Var][]*Term
 	finalChecked bool
 	schedBudget  int // deviations from the default schedule explored (vSchedules)
 	nTable       int // branch conditions decided by domain tables (no solver call)
@@ -250,21 +252,66 @@ func (p *Path) pureBV(extra []*Term) bool {
 	return true
 }
 
-func (p *Path) sync() {
+// sync brings the solver up to date with the path condition.  Single-variable
+// constraints (domain constraints, narrowed-domain facts) are only sent for
+// variables that are relevant: those occurring in a multi-variable constraint of
+// the path or in the query.  The unsent rest constrains other variables only and
+// is satisfiable on its own (it is exactly what the narrowed domains record), so
+// the answer is unchanged - and a 65 537-letter sequence does not reach the solver.
+func (p *Path) sync(extra ...*Term) {
 	if p.epoch != p.w.sv.epoch {
 		// the solver process was restarted: re-establish this path's frame
 		p.epoch = p.w.sv.epoch
 		p.w.sv.Push()
 		p.synced = 0
+		p.relevant = map[*Var]bool{}
+		p.pending = map[*Var][]*Term{}
+	}
+	if p.relevant == nil {
+		p.relevant = map[*Var]bool{}
+		p.pending = map[*Var][]*Term{}
+	}
+	mark := func(v *Var) {
+		if p.relevant[v] {
+			return
+		}
+		p.relevant[v] = true
+		for _, c := range p.pending[v] {
+			p.w.sv.Assert(c)
+		}
+		delete(p.pending, v)
 	}
 	for ; p.synced < len(p.pc); p.synced++ {
-		p.w.sv.Assert(p.pc[p.synced])
+		c := p.pc[p.synced]
+		var single *Var
+		if c.SV != nil {
+			single = c.SV
+		} else if c.RawVar != nil {
+			single = c.RawVar
+		}
+		if single != nil {
+			if p.relevant[single] {
+				p.w.sv.Assert(c)
+			} else {
+				p.pending[single] = append(p.pending[single], c)
+			}
+			continue
+		}
+		for _, v := range SupportList(c) {
+			mark(v)
+		}
+		p.w.sv.Assert(c)
+	}
+	for _, e := range extra {
+		for _, v := range SupportList(e) {
+			mark(v)
+		}
 	}
 }
 
 // query checks satisfiability of PC ∧ extra.
 func (p *Path) query(extra ...*Term) Res {
-	p.sync()
+	p.sync(extra...)
 	sv := p.w.sv
 	sv.Push()
 	for _, e := range extra {
@@ -317,7 +364,7 @@ func (p *Path) queryModel(extra ...*Term) (Res, map[string]ModelValue) {
 	if m, ok := p.trivialModel(extra); ok {
 		return Sat, m
 	}
-	p.sync()
+	p.sync(extra...)
 	sv := p.w.sv
 	sv.Push()
 	for _, e := range extra {
@@ -340,7 +387,16 @@ func (p *Path) queryModel(extra ...*Term) (Res, map[string]ModelValue) {
 	}
 	var m map[string]ModelValue
 	if r == Sat {
-		m = sv.Model(p.vars)
+		var rel []*Var
+		for _, v := range p.vars {
+			if p.relevant[v] {
+				rel = append(rel, v)
+			}
+		}
+		m = sv.Model(rel)
+		if m == nil {
+			m = map[string]ModelValue{}
+		}
 	}
 	if sv.epoch == ep {
 		sv.Pop()
@@ -699,7 +755,7 @@ func (p *Path) Concretize(t *Term, what string) int64 {
 
 // queryModelTerm returns one feasible value of t under PC ∧ extra.
 func (p *Path) queryModelTerm(t *Term, extra ...*Term) (Res, uint64) {
-	p.sync()
+	p.sync(append([]*Term{t}, extra...)...)
 	sv := p.w.sv
 	sv.Push()
 	for _, e := range extra {
@@ -963,6 +1019,7 @@ func (p *Path) Assert(c Value, clause string) {
 			extra = append(extra, tt.Not(r.cond.(*Term)))
 		}
 		r, m := p.queryModel(extra...)
+		p.w.eng.maybeCrossCheck(p, extra, r)
 		switch r {
 		case Sat:
 			failed = true
@@ -1117,11 +1174,14 @@ func (p *Path) newByteVar(dom string) *Var {
 		for _, d := range v.Dom {
 			alts = append(alts, p.tt().mkRaw(&Term{Op: OpEq, S: BoolSort, Args: []*Term{v.T, p.tt().Const(BV(8), d)}}))
 		}
+		var dc *Term
 		if len(alts) == 1 {
-			p.pc = append(p.pc, alts[0])
+			dc = alts[0]
 		} else {
-			p.pc = append(p.pc, p.tt().mkRaw(&Term{Op: OpOr, S: BoolSort, Args: alts}))
+			dc = p.tt().mkRaw(&Term{Op: OpOr, S: BoolSort, Args: alts})
 		}
+		dc.RawVar = v
+		p.pc = append(p.pc, dc)
 	}
 	return v
 }
@@ -1159,6 +1219,7 @@ func (p *Path) DrawInt(lo, hi int64, w int) Value {
 	c := tt.mkRaw(&Term{Op: OpAnd, S: BoolSort, Args: []*Term{
 		tt.mkRaw(&Term{Op: OpSle, S: BoolSort, Args: []*Term{tt.Const(BV(w), uint64(lo)), v.T}}),
 		tt.mkRaw(&Term{Op: OpSle, S: BoolSort, Args: []*Term{v.T, tt.Const(BV(w), uint64(hi))}})}})
+	c.RawVar = v
 	p.pc = append(p.pc, c)
 	p.draws = append(p.draws, Draw{Kind: "int", Lo: lo, Hi: hi, vars: []*Var{v}})
 	if lo == hi {
